@@ -23,3 +23,16 @@ int fprintf(FILE *fp, const char *fmt, ...)
 }
 void h_dfcc_indent(void) { FILE *fp; int d; cfg_indent(fp, d); }
 #endif
+/* cfg_getopt_leaf under its loop contract: string comparison is abstract (contract text in confuse_contracts.h) */
+#ifdef CFGV_DFCC_LEAF
+char cfgv_names[CFGV_MAXOPTS]; _Bool cfgv_eq_cs[CFGV_MAXOPTS], cfgv_eq_ci[CFGV_MAXOPTS]; const char *cfgv_asked;
+static int cfgv_cmp(const char *a, const char *b, const _Bool *verdict)
+{
+	__CPROVER_assert(b == cfgv_asked, "[C01,C11] the comparison is with the name asked for");
+	__CPROVER_assert(__CPROVER_same_object(a, cfgv_names), "[C01,C11] the comparison is with the name of an entry of the option array");
+	return verdict[__CPROVER_POINTER_OFFSET(a)] ? 0 : (nondet_bool() ? 1 : -1);
+}
+int strcmp(const char *a, const char *b) { return cfgv_cmp(a, b, cfgv_eq_cs); }
+int strcasecmp(const char *a, const char *b) { return cfgv_cmp(a, b, cfgv_eq_ci); }
+void h_dfcc_leaf(void) { cfg_t *c; const char *n; cfg_getopt_leaf(c, n); }
+#endif
